@@ -433,6 +433,9 @@ func loadHVtmx(hheaRaw, htmxRaw []byte, numGlyphs int) (*tables.Hhea, tables.Hmt
 		return nil, tables.Hmtx{}, err
 	}
 
+	if nm := int(hhea.NumOfLongMetrics); nm == 0 || nm > numGlyphs {
+		return nil, tables.Hmtx{}, fmt.Errorf("invalid number of metrics (%d, for %d glyphs)", nm, numGlyphs)
+	}
 	hmtx, _, err := tables.ParseHmtx(htmxRaw, int(hhea.NumOfLongMetrics), numGlyphs-int(hhea.NumOfLongMetrics))
 	if err != nil {
 		return nil, tables.Hmtx{}, err
